@@ -54,7 +54,16 @@ def run_translator(ctx):
 
 def run(ctx):
     tab, changed, t_tr = run_translator(ctx)
-    cov = core.proof_gate(ctx.pid, PROPS, ["MV.Props.C20"] if ctx.tier == "thorough" else None)
+    gate = None
+    try:
+        cov = core.proof_gate(ctx.pid, PROPS, ["MV.Props.C20"] if ctx.tier == "thorough" else None)
+    except core.Violation as v:
+        # a table theorem no longer holds for the regenerated table (e.g. a C parameter that is no longer forwarded): before
+        # reporting it without an input, let the paired C / C++ calls look for a concrete disagreement (needs the driver only)
+        gate = v
+        cov = {"obligations": 1, "discharged": 0, "proof_gate": "BROKEN: " + v.msg}
+        if core.sh(["lake", "build", "mvdriver"], cwd=core.LEAN, timeout=3600).returncode != 0:
+            raise
     cov["checker_cmd"] = ("python3 tools/extract_cbind.py && cd lean && lake build MV mvdriver && lake env lean <#print axioms for every theorem of MV/Props/C20.lean>; "
                           "g++ -fsanitize=address,undefined harness/c20_cbind.cpp libmanifoldc.a libmanifold.a && ASAN_OPTIONS=detect_leaks=1 ./c20_cbind")
     cov["trusted_base"] = core.TRUSTED_BASE + ["tools/extract_cbind.py and the clang-14 JSON AST it reads", "AddressSanitizer / LeakSanitizer / UBSan runtime"]
@@ -82,6 +91,9 @@ def run(ctx):
             covered = l.split()[1:]
     c2 = cases.correspond(ctx, cs, "paired C / C++ calls (PROP) and lifecycle log replayed on the Lean automaton + memory model (REQ/EXP)")
     cov.update(c2)
+    if gate is not None:
+        gate.coverage = dict(cov, trusted_base=core.TRUSTED_BASE, search="the paired C / C++ calls found no disagreement")
+        raise gate
     names = [w["name"] for w in tab["wrappers"]]
     missing = sorted(set(names) - set(covered))
     unknown = sorted(set(covered) - set(names))
